@@ -75,7 +75,7 @@ func (p *c09) Init(tier string, seed int64) {
 	p.nRand = p.pick(5000, 100000)
 }
 
-func (p *c09) N() int { return p.nEnum + p.nRand + len(c09Long) }
+func (p *c09) N() int { return p.nEnum + p.nRand + len(c09Long) + c09nSelf }
 
 // c09Long: chains of many templates ("of any length"): every level overrides the block and calls parent(), every
 // tenth level leaves it alone, every seventh names its parent by an expression.
@@ -315,6 +315,10 @@ func (p *c09) build(i int) (*Program, string, bool) {
 	// add a block() call of a resolved block at the end of the root layout and inside a root block
 	root := prog.Templates[tname(0)]
 	which := "b" + strconv.Itoa(r.Intn(B))
+	if r.Intn(8) == 0 {
+		// a near miss of a block's name names no block: the call is an error, not the block
+		which = []string{" " + which, which + " ", strings.ToUpper(which), which + "\n", "b0" + which[1:], which + ".", ""}[r.Intn(7)]
+	}
 	root.Body = append(root.Body, tx("{blockfn:"), pr(&gen.EBlockFn{Name: str(which)}), tx("}"))
 	// an extra block only the root has, rendered inside a loop with a nested block overridden by the leaf
 	root.Body = append(root.Body, &gen.NFor{Val: "x", Seq: &gen.EArr{Els: []gen.Expr{str("p"), str("q")}}, Body: []gen.Node{
@@ -324,7 +328,33 @@ func (p *c09) build(i int) (*Program, string, bool) {
 	return prog, fmt.Sprintf("rand/L%d/B%d/lay%d/use%d/%v", L, B, g.layout, g.use, pat), true
 }
 
+// c09nSelf: chains in which one template stands at several levels - it names its parent by an expression that says
+// "me again" until a counter, decremented at its top level, runs out. Every level is a level like any other.
+const c09nSelf = 4
+
+func c09SelfCase(j int) (*Program, string) {
+	depth := 2 + j%2*2 // the template stands at 2 or 4 levels
+	withParent := j/2 == 1
+	bbody := []gen.Node{tx("q("), pr(&gen.ECall{Fn: "fn", Args: []gen.Expr{str("q.b")}})}
+	if withParent {
+		bbody = append(bbody, tx("^"), pr(&gen.EParent{}))
+	}
+	bbody = append(bbody, tx(")"))
+	ts := map[string]*gen.Template{
+		"base": tpl("base", tx("BASE["), &gen.NBlock{Name: "b", Body: []gen.Node{tx("base.b"), pr(&gen.ECall{Fn: "fn", Args: []gen.Expr{str("base.b")}})}}, tx("|d="), pr(nm("d")), tx("]")),
+		"q": tpl("q", &gen.NExtends{Tpl: &gen.ETern{C: &gen.EBin{Op: ">", L: nm("d"), R: num(1)}, A: str("q"), B: str("base")}}, &gen.NSet{Name: "d", X: &gen.EBin{Op: "-", L: nm("d"), R: num(1)}},
+			&gen.NBlock{Name: "b", Body: bbody}),
+	}
+	return &Program{Templates: ts, Main: "q", Ctx: map[string]interface{}{"d": depth}}, fmt.Sprintf("self-extension/levels=%d/parent=%v", depth, withParent)
+}
+
 func (p *c09) Describe(i int) interface{} {
+	if i >= p.nEnum+p.nRand+len(c09Long) {
+		prog, sig := c09SelfCase(i - p.nEnum - p.nRand - len(c09Long))
+		d := prog.describe()
+		d["configuration"] = sig
+		return d
+	}
 	if i >= p.nEnum+p.nRand {
 		return map[string]interface{}{"kind": "long chain", "templates": c09Long[i-p.nEnum-p.nRand] + 1}
 	}
@@ -335,6 +365,15 @@ func (p *c09) Describe(i int) interface{} {
 }
 
 func (p *c09) Run(i int) (res fw.Result) {
+	if i >= p.nEnum+p.nRand+len(c09Long) {
+		prog, sig := c09SelfCase(i - p.nEnum - p.nRand - len(c09Long))
+		if _, _, ok := modelCase(&res, "c09:"+sig, prog, gen.Canon{}, true); !ok {
+			res.Fail("harness", "c09:oor:"+sig, "case left the model's region", prog.describe())
+		}
+		res.AddClass("self-extension")
+		res.UniqueNT = 1
+		return
+	}
 	if i >= p.nEnum+p.nRand {
 		L := c09Long[i-p.nEnum-p.nRand]
 		src, main, want := c09LongChain(L)
@@ -355,6 +394,24 @@ func (p *c09) Run(i int) (res fw.Result) {
 			res.Sigs = append(res.Sigs, sig)
 		}
 		return
+	}
+	if style := i % 5; style >= 2 && i < p.nEnum+p.nRand {
+		// a template's name is a key, white space and all: " t0" is not "t0", and a layout called "t0\n" is found
+		// under that name only
+		pad := [][2]string{{" ", ""}, {"", "\n"}, {"\t", "  "}}[style-2]
+		names := map[string]bool{}
+		for n := range prog.Templates {
+			names[n] = true
+		}
+		renameTemplates(prog, func(n string) string {
+			if names[n] {
+				return pad[0] + n + pad[1]
+			}
+			return n
+		})
+		for n := range names { // what a trimmed name would find
+			prog.Templates[n] = tpl(n, tx("DECOY:"+n))
+		}
 	}
 	lib, _, ok := modelCase(&res, "c09:"+sig, prog, gen.Canon{}, true)
 	if !ok {
